@@ -23,8 +23,9 @@ PREDEF = ['&lt;', '&gt;', '&amp;', '&apos;', '&quot;']
 
 
 class Gen:
-    def __init__(self, rng, nonascii=0.08, ed5=0.04):
+    def __init__(self, rng, nonascii=0.08, ed5=0.04, dtd_heavy=False):
         self.r = rng
+        self.dtd_heavy = dtd_heavy
         self.nonascii = nonascii
         self.ed5 = ed5
         self.text_ents = []      # usable in attribute values and content
@@ -220,7 +221,7 @@ class Gen:
 
     def plan_entities(self):
         r = self.r
-        k = r.choice([0, 0, 1, 2, 3, 5, 8])
+        k = r.choice([2, 3, 5, 8, 12]) if self.dtd_heavy else r.choice([0, 0, 1, 2, 3, 5, 8])
         names = []
         for i in range(k):
             n = r.choice(['e', 'f', 'g', 'ent', 'E', 'e.1', '_e']) + str(i)
@@ -412,7 +413,7 @@ class Gen:
         if r.random() < 0.4:
             out.append(self.xmldecl())
         out.append(self.misc())
-        if r.random() < 0.6:
+        if r.random() < (1.0 if self.dtd_heavy else 0.6):
             out.append(self.doctype())
             out.append(self.misc())
         if r.random() < 0.02:
@@ -503,14 +504,14 @@ def mutate_chars(r, doc):
     return ''.join(s)
 
 
-def generate(seed, count, mix=(0.3, 0.4, 0.3)):
+def generate(seed, count, mix=(0.3, 0.4, 0.3), dtd_heavy=False):
     """returns list of (kind, doc) with kind in 'wf','tok','chr'"""
     r = random.Random(seed)
     out = []
     prev = None
     while len(out) < count:
         try:
-            doc = Gen(r).document()
+            doc = Gen(r, nonascii=0.02 if dtd_heavy else 0.08, ed5=0.0 if dtd_heavy else 0.04, dtd_heavy=dtd_heavy).document()
         except ValueError:
             continue
         x = r.random()
